@@ -19,6 +19,9 @@ func (x *Hex) MarshalJSON() ([]byte, error) {
 }
 
 func (x *Hex) UnmarshalJSON(b []byte) error {
+	if len(b) != 2*len(x)+2 || b[0] != '"' || b[len(b)-1] != '"' {
+		return fmt.Errorf("invalid hex sum %s", b)
+	}
 	b = b[1 : len(b)-1]
 	_, err := hex.Decode((*x)[:], b)
 	return err
